@@ -3,6 +3,7 @@ CONSTANTS
   N = 3
   Types = {1}
   Shape = "all"
+  ChildOrder = "any"
   PushRule = "on_increase"
   ConflictMode = "full"
   SkipSameRank = FALSE
